@@ -358,7 +358,7 @@ def build_streams(tier: str, seed: int) -> list[tuple[bytes, str]]:
         return out[:n]
 
     streams: list[tuple[bytes, str]] = []
-    small_types = (1, 128, 16384)
+    small_types = (0, 1, 128, 16384)  # type 0 is a frame like any other for the framing layer (what it means is C12's business)
     small_lens = (0, 1, 3, 128)
     small = [(t, ln) for t in small_types for ln in small_lens]
 
@@ -390,13 +390,13 @@ def build_streams(tier: str, seed: int) -> list[tuple[bytes, str]]:
             tails(b, f"s{i}", lbl)
     # tiny streams for the 2^(n-1) enumeration
     for fr in ([(1, 0)], [(1, 1)], [(128, 0), (1, 2)], [(1, 0), (1, 0), (1, 0)], [(300, 3), (1, 1)], [(16384, 2), (2, 0)],
-               [(1, 0), (128, 4)], [(65535, 1), (1, 0), (3, 2)]):
+               [(1, 0), (128, 4)], [(65535, 1), (1, 0), (3, 2)], [(0, 0), (1, 1)], [(1, 0), (0, 2), (3, 0)]):
         b = enc(fr, "tiny")
         streams.append((b, "tiny" + str(fr)))
         for k in range(1, 4):
             streams.append((b + wire.encode_frame(16384, b"abc")[:k], "tiny" + str(fr) + f"+tail[:{k}]"))
     # single big frames over the full alphabet
-    big_types = (1, 127, 128, 300, 16383, 16384, 65535, 2**21, 2**32)
+    big_types = (0, 1, 127, 128, 300, 16383, 16384, 65535, 2**21, 2**32)
     big_lens = (0, 1, 2, 127, 128, 129, 16383, 16384, 16385, 70000)
     for t in big_types:
         for ln in big_lens:
